@@ -35,6 +35,22 @@ Definition denotes (c : cfg) (g : ograph) : bool :=
   && forallb (fun o => o <? nobj g) (oreq g)
   && Nat.eqb (List.length (okids g)) (nobj g).
 
+(* ---- marks with their values, on objects that live across several run_tasks calls.  Each object carries the result_meta it was
+   last given (None: never completed).  One call completes the tasks in [ok] with the outcomes [meta_of] (for an executed task the
+   start/duration of this execution, for a task served from the cache the stored ones). *)
+Definition mark_obj (m : mark_mode) (old : option nat) (new : nat) : option nat :=
+  match m, old with
+  | MarkAlways, _ => Some new
+  | _, Some x => Some x            (* "already carries its metadata" *)
+  | _, None => Some new
+  end.
+Record orun := { r_cfg : cfg; r_ok : list nat; r_meta : nat -> nat }.
+Definition apply_run (m : mark_mode) (g : ograph) (marks : list (option nat)) (r : orun) : list (option nat) :=
+  map (fun o => if mem o (marked (r_cfg r) g (r_ok r)) then mark_obj m (nth o marks None) (r_meta r (cls_of g o)) else nth o marks None)
+      (seq 0 (nobj g)).
+Definition apply_runs (m : mark_mode) (g : ograph) (marks : list (option nat)) (rs : list orun) : list (option nat) :=
+  fold_left (apply_run m g) rs marks.
+
 (* ---- correspondence case: the objects built by the harness, the dependency instances labtech's own search returns for
    each, and which objects carried a result_meta after the run *)
 Record ocase := { oc_cfg : cfg; oc_graph : ograph; oc_ok : list nat; oc_marked : list nat }.
